@@ -181,7 +181,7 @@ func TestC03(t *testing.T) {
 		return
 	}
 
-	perType := vf.N(550, 400000)
+	perType := vf.N(1600, 400000)
 	for typ := uint8(1); typ <= 15; typ++ {
 		typ := typ
 		n := perType
